@@ -404,6 +404,10 @@ add("C17", "open", "history-dependent:template-object-kept-across-other-renders:
     "template that includes / renders / extends the same name was rendered: every load of a cached name, a tag's included, replaces the globals pinned to the shared cached object",
     [])
 
+add("C23", "fixed", "nsdict:outcome-differs:ok-vs-twin-TemplateNotFoundError", "the caching loaders keyed a namespaced request as '<namespace>/<name>' and an un-namespaced one by the bare name: after "
+    "get_template('t1', ns='A') fell back to the plain 't1', the plain request for 'A/t1' (which does not exist) was answered with it; namespace 'a' + 'b/c' and namespace 'a/b' + 'c' shared an entry too",
+    [], "038492f")
+
 if __name__ == "__main__":
     # further entries are appended by tools/mkfindings.py from triaged replay files and kept in findings_extra.json
     extra_path = os.path.join(VERIF, "tools", "findings_extra.json")
